@@ -1,12 +1,371 @@
-//! C03 — not built yet (stub).
+//! C03 — head is the most-work validated chain, whatever the arrival order.
 
 use crate::engine::*;
-use serde_json::Value;
+use crate::props::c02::scan;
+use crate::world::gen::*;
+use crate::world::*;
+use crate::{ensure, fail};
+use grin_chain::Error as ChainError;
+use grin_core::core::hash::{Hash, Hashed};
+use grin_core::core::Block;
+use proptest::prelude::*;
+use serde_derive::{Deserialize, Serialize};
+use serde_json::{json, Value};
+use std::collections::{BTreeMap, BTreeSet};
 
-pub fn run(_ctx: &Ctx) -> HResult<()> {
-	Err(HarnessError("C03 check not built yet".into()))
+#[derive(Clone, Debug, Serialize, Deserialize)]
+pub struct Perm {
+	/// sort keys: body i is delivered in increasing key order
+	pub keys: Vec<u16>,
+	/// extra deliveries (duplicates): (position pick, block pick)
+	pub dups: Vec<(u16, u16)>,
+	/// 0: headers one by one, 1: headers in path chunks through sync_block_headers, 2: mixed
+	pub header_mode: u8,
 }
 
-pub fn replay(_ctx: &Ctx, _part: &str, _case: &Value) -> PResult {
+#[derive(Clone, Debug, Serialize, Deserialize)]
+pub struct Case {
+	/// real PoW (work differs through length / timestamps) or SKIP_POW with free difficulties
+	pub real: bool,
+	pub blocks: Vec<RawBlock>,
+	pub perms: Vec<Perm>,
+}
+
+fn perm_strategy() -> impl Strategy<Value = Perm> {
+	(
+		prop::collection::vec(any::<u16>(), 24),
+		prop::collection::vec((any::<u16>(), any::<u16>()), 0..4),
+		0u8..3,
+	)
+		.prop_map(|(keys, dups, header_mode)| Perm { keys, dups, header_mode })
+}
+
+pub fn case_strategy(max_blocks: usize) -> impl Strategy<Value = Case> {
+	// fork-heavy parent choice: branch off recent nodes and ancestors of the head
+	let blk = (raw_block(0), prop_oneof![6 => Just(0u8), 5 => Just(1u8), 4 => 2u8..6, 4 => 101u8..106]).prop_map(|(mut b, p)| {
+		b.parent = p;
+		b
+	});
+	(
+		prop::bool::weighted(0.25),
+		prop::collection::vec(blk, 6..=max_blocks),
+		prop::collection::vec(perm_strategy(), 3..=4),
+	)
+		.prop_map(|(real, blocks, perms)| Case { real, blocks, perms })
+}
+
+struct Tree {
+	world: World,
+	/// node index → block (1..)
+	builder: ChainBox,
+	mode: PowMode,
+}
+
+fn build_tree(ctx: &Ctx, case: &Case) -> Result<Tree, Fail> {
+	let dir = ctx.scratch_dir("c03b");
+	let cb = ChainBox::open(&dir).map_err(|e| Fail::new("init-fresh", e))?;
+	let mut w = World::new(&cb.genesis, case.real);
+	let mode = if case.real { PowMode::Real } else { PowMode::Skip(1) };
+	let mut head = 0usize;
+	for (i, raw) in case.blocks.iter().enumerate() {
+		let built = w.build(cb.c(), raw, head).map_err(|e| Fail::new("builder", format!("block {}: {}", i, e)))?;
+		let model = match &built.verdict {
+			Ok(m) => m.clone(),
+			Err(e) => fail!("harness:model-invalid", "generated block {} invalid in model: {:?}", i, e),
+		};
+		match cb.c().process_block(built.block.clone(), opts(mode)) {
+			Ok(tip) => {
+				let n = w.push(&built, model);
+				if tip.is_some() {
+					head = n;
+				}
+			}
+			Err(e) => fail!("valid-block-rejected", "builder chain rejected valid block {} (h={}): {}", i, built.block.header.height, err_name(&e)),
+		}
+	}
+	Ok(Tree { world: w, builder: cb, mode })
+}
+
+fn td(b: &Block) -> u64 {
+	b.header.total_difficulty().to_num()
+}
+
+/// deliver headers first (parents before children), then bodies in the
+/// permuted order with duplicates; check the head oracle after every delivery
+fn deliver(ctx: &Ctx, t: &Tree, perm: &Perm, st: &mut Stats) -> Result<(Hash, String, ChainBox), Fail> {
+	let w = &t.world;
+	let n = w.nodes.len() - 1; // blocks 1..=n
+	let dir = ctx.scratch_dir("c03t");
+	let cb = ChainBox::open(&dir).map_err(|e| Fail::new("init-fresh", e))?;
+	let chain = cb.c();
+	let o = opts(t.mode);
+	// ---- headers
+	let mut i = 1;
+	while i <= n {
+		let use_chunk = match perm.header_mode {
+			0 => false,
+			1 => true,
+			_ => i % 2 == 0,
+		};
+		if use_chunk {
+			// maximal run of consecutive creation-order headers forming a path
+			let mut j = i;
+			while j + 1 <= n && w.nodes[j + 1].parent == j && j + 1 - i < 7 {
+				j += 1;
+			}
+			let hs: Vec<_> = (i..=j).map(|k| w.nodes[k].block.header.clone()).collect();
+			let sync_head = chain.header_head().map_err(|e| Fail::new("header_head-err", format!("{:?}", e)))?;
+			chain
+				.sync_block_headers(&hs, sync_head, o)
+				.map_err(|e| Fail::new("valid-headers-rejected", format!("sync_block_headers {}..={}: {}", i, j, err_name(&e))))?;
+			i = j + 1;
+		} else {
+			chain
+				.process_block_header(&w.nodes[i].block.header, o)
+				.map_err(|e| Fail::new("valid-header-rejected", format!("process_block_header node {}: {}", i, err_name(&e))))?;
+			i += 1;
+		}
+	}
+	// header_head must be a most-work header
+	let hh = chain.header_head().map_err(|e| Fail::new("header_head-err", format!("{:?}", e)))?;
+	let max_td = (1..=n).map(|k| td(&w.nodes[k].block)).max().unwrap_or(0);
+	ensure!(hh.total_difficulty.to_num() == max_td, "header-head-not-max", "header_head td {} but max over delivered headers {}", hh.total_difficulty.to_num(), max_td);
+	ensure!(chain.head().map(|h| h.height).unwrap_or(9) == 0, "head-moved-by-headers", "body head moved by header delivery");
+
+	// ---- bodies
+	let mut order: Vec<usize> = (1..=n).collect();
+	order.sort_by_key(|&k| (perm.keys[(k - 1) % perm.keys.len()], k));
+	let mut seq: Vec<usize> = order.clone();
+	for (pp, bp) in &perm.dups {
+		let pos = ((*pp as usize) * (seq.len() + 1)) >> 16;
+		let b = order[((*bp as usize) * order.len()) >> 16];
+		seq.insert(pos, b);
+	}
+	let mut delivered: BTreeSet<usize> = BTreeSet::new();
+	let mut accepted: BTreeSet<usize> = BTreeSet::new();
+	accepted.insert(0);
+	let mut cur_head_td = td(&w.nodes[0].block);
+	let mut cur_head = w.nodes[0].hash();
+	let mut log_pos = 0usize;
+	let mut lost_first = false;
+	for (step, &k) in seq.iter().enumerate() {
+		let was_delivered = delivered.contains(&k);
+		let parent_ok = accepted.contains(&w.nodes[k].parent);
+		let res = chain.process_block(w.nodes[k].block.clone(), o);
+		delivered.insert(k);
+		// model: newly accepted = closure of delivered under "parent accepted"
+		let before = accepted.len();
+		loop {
+			let mut grew = false;
+			for &d in &delivered {
+				if !accepted.contains(&d) && accepted.contains(&w.nodes[d].parent) {
+					accepted.insert(d);
+					grew = true;
+				}
+			}
+			if !grew {
+				break;
+			}
+		}
+		let newly = accepted.len() - before;
+		// result of this very call
+		match &res {
+			Ok(_) => {
+				ensure!(!was_delivered || !parent_ok || newly > 0, "duplicate-accepted", "step {}: duplicate body of node {} returned Ok", step, k);
+				ensure!(parent_ok, "orphan-accepted", "step {}: body of node {} accepted before its parent's body", step, k);
+			}
+			Err(ChainError::Orphan) => {
+				ensure!(!parent_ok, "spurious-orphan", "step {}: node {} reported orphan although parent body was accepted", step, k);
+				st.orphans += 1;
+			}
+			Err(ChainError::Unfit(_)) => {
+				ensure!(was_delivered, "valid-block-unfit", "step {}: first delivery of node {} refused as unfit: {:?}", step, k, res);
+				st.dups += 1;
+			}
+			Err(e) => {
+				fail!("valid-block-rejected", "step {}: body of node {} (parent accepted: {}) rejected: {}", step, k, parent_ok, err_name(e));
+			}
+		}
+		if newly > 1 {
+			st.orphan_resolved += 1;
+		}
+		// every accepted block is stored, nothing else is
+		for d in 1..=n {
+			let stored = chain.get_block(&w.nodes[d].hash()).is_ok();
+			ensure!(
+				stored == accepted.contains(&d),
+				if stored { "block-stored-but-not-connected" } else { "accepted-block-missing" },
+				"step {}: node {} stored={} but model accepted={}",
+				step,
+				d,
+				stored,
+				accepted.contains(&d)
+			);
+		}
+		// acceptance events: head moves only to strictly more work, and always when more work
+		let log = cb.adapter.log.lock().unwrap().clone();
+		for ev in &log[log_pos..] {
+			let Some(nd) = w.node_of(&ev.hash) else {
+				fail!("accepted-unknown", "adapter reported unknown block");
+			};
+			let btd = td(&w.nodes[nd].block);
+			if ev.status == "fork" {
+				ensure!(btd <= cur_head_td, "more-work-block-not-head", "step {}: node {} td {} > head td {} reported as fork", step, nd, btd, cur_head_td);
+				if btd < max_td {
+					lost_first = true;
+				}
+			} else {
+				ensure!(btd > cur_head_td, "head-moved-without-more-work", "step {}: node {} td {} became head over td {} ({})", step, nd, btd, cur_head_td, ev.status);
+				cur_head_td = btd;
+				cur_head = ev.hash;
+			}
+		}
+		ensure!(log.len() - log_pos == newly, "accept-count", "step {}: adapter saw {} acceptances, model {}", step, log.len() - log_pos, newly);
+		log_pos = log.len();
+		let head = chain.head().map_err(|e| Fail::new("head-err", format!("{:?}", e)))?;
+		ensure!(head.last_block_h == cur_head, "head-vs-events", "step {}: head() differs from the last head-setting acceptance", step);
+		let best = accepted.iter().map(|&a| td(&w.nodes[a].block)).max().unwrap();
+		ensure!(
+			head.total_difficulty.to_num() == best,
+			"head-not-most-work",
+			"step {}: head td {} but most-work accepted block has {}",
+			step,
+			head.total_difficulty.to_num(),
+			best
+		);
+		let Some(hn) = w.node_of(&head.last_block_h) else {
+			fail!("head-unknown", "head is not a block of the world");
+		};
+		ensure!(accepted.contains(&hn), "head-not-connected", "step {}: head node {} has undelivered ancestors", step, hn);
+	}
+	if lost_first {
+		st.loser_first = true;
+	}
+	let head = chain.head().map_err(|e| Fail::new("head-err", format!("{:?}", e)))?;
+	let roots = {
+		let tx = chain.txhashset();
+		let r = tx.read().roots().map_err(|e| Fail::new("roots-err", format!("{:?}", e)))?;
+		format!("{:?}/{:?}/{:?}/{:?}", r.output_roots.pmmr_root, r.output_roots.bitmap_root, r.rproof_root, r.kernel_root)
+	};
+	Ok((head.last_block_h, roots, cb))
+}
+
+#[derive(Default)]
+struct Stats {
+	orphans: u32,
+	orphan_resolved: u32,
+	dups: u32,
+	loser_first: bool,
+}
+
+pub fn run_case(ctx: &Ctx, case: &Case, counting: bool) -> PResult {
+	init_thread();
+	let ev = &ctx.ev;
+	let t = build_tree(ctx, case)?;
+	let w = &t.world;
+	let n = w.nodes.len() - 1;
+	let max_td = (0..=n).map(|k| td(&w.nodes[k].block)).max().unwrap();
+	let winners: Vec<usize> = (0..=n).filter(|&k| td(&w.nodes[k].block) == max_td).collect();
+	let unique = winners.len() == 1;
+	let mut st = Stats::default();
+	let mut finals: Vec<(Hash, String)> = vec![];
+	for (pi, perm) in case.perms.iter().enumerate() {
+		let (h, r, cb) = deliver(ctx, &t, perm, &mut st).map_err(|f| Fail::new(f.sig, format!("perm {}: {}", pi, f.msg)))?;
+		if unique {
+			ensure!(h == w.nodes[winners[0]].hash(), "final-head-not-winner", "perm {}: final head is not the unique most-work block", pi);
+			// state equals the model of the winner
+			scan(&cb, w, &format!("perm {} final", pi))?;
+		}
+		cb.c().validate(false).map_err(|e| Fail::new("validate-failed", format!("perm {}: {:?}", pi, e)))?;
+		finals.push((h, r));
+	}
+	if unique {
+		for (i, f) in finals.iter().enumerate() {
+			ensure!(f == &finals[0], "order-dependent-state", "perm {} ends on roots/head different from perm 0: {:?} vs {:?}", i, f, finals[0]);
+		}
+		// fresh chain fed only the winning branch, in order
+		let mut path = vec![];
+		let mut a = winners[0];
+		while a != 0 {
+			path.push(a);
+			a = w.nodes[a].parent;
+		}
+		path.reverse();
+		let dir = ctx.scratch_dir("c03w");
+		let cb = ChainBox::open(&dir).map_err(|e| Fail::new("init-fresh", e))?;
+		for &k in &path {
+			cb.c()
+				.process_block(w.nodes[k].block.clone(), opts(t.mode))
+				.map_err(|e| Fail::new("valid-block-rejected", format!("winning branch alone: node {} rejected: {}", k, err_name(&e))))?;
+		}
+		let r = {
+			let tx = cb.c().txhashset();
+			let r = tx.read().roots().map_err(|e| Fail::new("roots-err", format!("{:?}", e)))?;
+			format!("{:?}/{:?}/{:?}/{:?}", r.output_roots.pmmr_root, r.output_roots.bitmap_root, r.rproof_root, r.kernel_root)
+		};
+		ensure!(
+			finals.is_empty() || (cb.c().head().map(|h| h.last_block_h).ok() == Some(finals[0].0) && r == finals[0].1),
+			"differs-from-winner-alone",
+			"state after permuted delivery differs from applying the winning chain alone"
+		);
+	}
+	if counting {
+		ev.eval();
+		ev.class_n("deliveries_permutations", case.perms.len() as u64);
+		if unique {
+			ev.class("worlds_with_unique_maximum");
+		} else {
+			ev.class("worlds_with_tied_maximum");
+		}
+		if case.real {
+			ev.class("worlds_real_pow");
+		}
+		if st.orphan_resolved > 0 {
+			ev.class("worlds_with_orphan_resolved_later");
+		}
+		if st.loser_first {
+			ev.class("worlds_with_losing_fork_before_winner");
+		}
+		if st.dups > 0 {
+			ev.class("worlds_with_duplicate_delivery");
+		}
+		let tips = (1..=n).filter(|&k| !(1..=n).any(|c| w.nodes[c].parent == k)).count();
+		if tips >= 2 {
+			ev.class("worlds_with_2plus_branches");
+		}
+		if st.orphan_resolved > 0 && st.loser_first {
+			let shape: Vec<usize> = (1..=n).map(|k| w.nodes[k].parent).collect();
+			ev.nontrivial(&(shape, unique, case.real, st.orphans.min(6)));
+		}
+	}
 	Ok(())
+}
+
+pub fn run(ctx: &Ctx) -> HResult<()> {
+	init_global();
+	let ev = &ctx.ev;
+	ev.rule("fork trees of 6..20 valid blocks (2..4 branches; SKIP_POW with arbitrary per-block difficulty increments incl. ties, or real PoW) generated by proptest; all headers delivered first (singly or in path chunks), then bodies in 3..4 generated permutations with duplicates and children-before-parents; after every delivery the head is compared with the max-work block among blocks whose ancestors were all delivered, head moves checked for strict work increase via the adapter's acceptance events, and at quiescence head/roots/unspent scan compared across permutations and against the winning chain applied alone; non-trivial = an orphan resolved later AND a losing fork accepted before the winner; distinct by (tree shape, unique max, PoW mode, orphan count)");
+	ev.assume("headers known first (statement precondition); orphan pool capacity (200) never exceeded by ≤20-block worlds");
+	let cases = ctx.n(48, 1000);
+	let mb = if ctx.quick() { 14 } else { 20 };
+	let fl = pbt_par(ctx, "c03", cases, 16, || case_strategy(mb), init_thread, |c, counting| run_case(ctx, c, counting));
+	if let Some(fl) = fl {
+		ctx.report("world", &fl.fail.sig, serde_json::to_value(&fl.value).unwrap(), &fl.fail.msg);
+	}
+	let s = sample_one(ctx.derive_seed("sample", 0), &case_strategy(6));
+	ev.sample("world", || serde_json::to_value(&s).unwrap());
+	ev.extra("proofs_created", json!(LIB.proofs_created.load(std::sync::atomic::Ordering::Relaxed)));
+	let _ = BTreeMap::<u8, u8>::new();
+	Ok(())
+}
+
+pub fn replay(ctx: &Ctx, part: &str, case: &Value) -> PResult {
+	init_global();
+	match part {
+		"world" => {
+			let c: Case = serde_json::from_value(case.clone()).map_err(|e| Fail::new("harness:replay-parse", e.to_string()))?;
+			run_case(ctx, &c, false)
+		}
+		_ => Ok(()),
+	}
 }
